@@ -169,8 +169,13 @@ def main():
     ev = chk.evidence(level=ctx.level, explanation=ctx.explanation)
     if chk.inconclusive:
         ev['coverage']['inconclusive'] = chk.inconclusive
-    os.makedirs(os.path.join(VERIF, 'evidence'), exist_ok=True)
-    with open(os.path.join(VERIF, 'evidence', pid + '.json'), 'w') as fh:
+    # evidence describes /repo; a run against another tree (VERIF_REPO: seeded changes, mutation runs) or a partial debug run
+    # (--only, VERIF_KANI_ONLY) must not overwrite it
+    evdir = os.path.join(VERIF, 'evidence')
+    if os.environ.get('VERIF_REPO') or getattr(ctx, 'only', None) or os.environ.get('VERIF_KANI_ONLY'):
+        evdir = os.path.join(os.environ.get('VERIF_SCRATCH', '/var/tmp/verif-scratch'), 'evidence-not-for-repo')
+    os.makedirs(evdir, exist_ok=True)
+    with open(os.path.join(evdir, pid + '.json'), 'w') as fh:
         json.dump(ev, fh, indent=1, default=str)
     c = ev['coverage']
     print('%s tier=%s obligations=%d discharged=%d smt=%d kani=%d ground=%d solver=%.1fs wall=%.1fs' % (
